@@ -228,6 +228,15 @@ func (ex *Exec) fileWrite(fr *Frame, h *FileH, bs []*term.T) Value {
 	} else {
 		in.Data = append(in.Data[:n:n], bs...)
 	}
+	if ex.st.sched != nil && ex.Cfg.Bounds["split_writes"] == 1 && len(bs) > 1 && pos == n && len(ex.st.sched.gs) > 1 {
+		// a write becomes visible in two steps (e.g. at a page boundary): between
+		// them another goroutine may observe a prefix of the appended bytes
+		t := ex.NewInput("split", 64)
+		ex.Assume(term.And(term.Sle(mkInt(1), t), term.Slt(t, mkInt(int64(len(bs))))))
+		in.Size = term.Add(mkInt(int64(n)), t)
+		ex.yield("fs-mid-write")
+		in.Size = nil
+	}
 	h.Pos = pos + len(bs)
 	in.Mtime = ex.mtimeNow()
 	ex.fsEvent(&FSEvent{Kind: "append", Path: h.Path, Inode: in, OldLen: n, NewLen: len(in.Data)})
